@@ -58,21 +58,22 @@ def _norm(adapter, s):
     return f(s) if f else s
 
 
-def replay_path(make_adapter, init_state, steps, free_run=True):
-    """steps: list of (act, expected_state).  Returns (n_steps_done, Divergence|None)."""
+def replay_path(make_adapter, init_state, steps, free_run=True, obs_out=None):
+    """init_state / expected states are canonical JSON strings of the normalised TLC
+    state.  steps: list of (act, expected).  Returns (n_steps_done, Divergence|None)."""
     ad = make_adapter()
     acts = [a for a, _ in steps]
-    obs = []
+    obs = [] if obs_out is None else obs_out
     try:
         try:
-            ad.reset(init_state)
+            ad.reset(json.loads(init_state))
             s = _norm(ad, ad.project())
         except Exception:
-            return 0, Divergence('exception', -1, acts, init_state, None, obs,
+            return 0, Divergence('exception', -1, acts, json.loads(init_state), None, obs,
                                  traceback.format_exc())
         obs.append({'act': {'name': 'Init'}, 'state': s})
-        if canon(s) != canon(_norm(ad, init_state)):
-            return 0, Divergence('init', -1, acts, init_state, s, obs)
+        if canon(s) != init_state:
+            return 0, Divergence('init', -1, acts, json.loads(init_state), s, obs)
         for i, (act, exp) in enumerate(steps):
             try:
                 oact = ad.step(act) or act
@@ -80,11 +81,11 @@ def replay_path(make_adapter, init_state, steps, free_run=True):
             except Unrealizable:
                 return i, None
             except Exception:
-                return i, Divergence('exception', i, acts, exp, None, obs,
+                return i, Divergence('exception', i, acts, json.loads(exp), None, obs,
                                      traceback.format_exc())
             obs.append({'act': oact, 'state': s})
-            if canon(s) != canon(_norm(ad, exp)) or canon(oact) != canon(act):
-                d = Divergence('state', i, acts, _norm(ad, exp), s, obs)
+            if canon(s) != exp or (oact is not act and canon(oact) != canon(act)):
+                d = Divergence('state', i, acts, json.loads(exp), s, obs)
                 if free_run:
                     # free run: keep feeding the remaining environment actions to the
                     # real object (no comparison) so the monitor sees what follows
@@ -112,34 +113,44 @@ def replay_path(make_adapter, init_state, steps, free_run=True):
 
 
 def plan_targets(graph, rng=None, sample=None):
-    """Path cover: list of (init_key, [(act, key)]) such that every edge is the last
+    """Path cover: list of (init_id, [(act, node_id)]) such that every edge is the last
     step of, or lies on, some path.  sample=N keeps N random targets."""
     parent, order = graph.bfs_tree()
     depth = {}
-    for k in order:
-        depth[k] = 0 if parent[k] is None else depth[parent[k][0]] + 1
+    for n in order:
+        depth[n] = 0 if parent[n] is None else depth[parent[n][0]] + 1
     targets = []
-    for k in order:
-        for act, kt in graph.out[k]:
-            targets.append((depth[k] + 1, k, act, kt))
+    for n in order:
+        for ei, (act, nt) in enumerate(graph.out[n]):
+            targets.append((depth[n] + 1, n, ei, nt))
     # longest first so shorter tree paths get covered by prefixes
     targets.sort(key=lambda t: -t[0])
     if sample is not None and sample < len(targets):
         rng = rng or random.Random(0)
         targets = rng.sample(targets, sample)
         targets.sort(key=lambda t: -t[0])
+    # tree edge index: parent edge of node n is identified by (pn, id(act))
+    tree_edge = {}
+    for n in order:
+        if parent[n] is not None:
+            pn, act = parent[n]
+            for ei, (a2, nt) in enumerate(graph.out[pn]):
+                if a2 is act and nt == n:
+                    tree_edge[n] = (pn, ei)
+                    break
     covered = set()
     plans = []
-    for _, k, act, kt in targets:
-        ek = (k, canon(act), kt)
-        if ek in covered:
+    for _, n, ei, nt in targets:
+        if (n, ei) in covered:
             continue
-        ik, path = graph.path_to(parent, k)
-        full = path + [(act, kt)]
-        prev = ik
-        for a, kk in full:
-            covered.add((prev, canon(a), kk))
-            prev = kk
+        ik, path = graph.path_to(parent, n)
+        act = graph.out[n][ei][0]
+        full = path + [(act, nt)]
+        covered.add((n, ei))
+        k = n
+        while parent[k] is not None:
+            covered.add(tree_edge[k])
+            k = parent[k][0]
         plans.append((ik, full))
     return plans, len(covered)
 
@@ -148,23 +159,92 @@ _G = {}
 
 
 def _worker(args):
-    plans, budget_s = args
-    make_adapter, graph_states = _G['make'], _G['states']
+    plans, exp, budget_s, keep_obs = args
+    make_adapter = _G['make']
     t0 = time.time()
     done = steps = 0
     divs = []
+    kept = []
     for ik, full in plans:
         if budget_s and time.time() - t0 > budget_s:
             break
-        n, d = replay_path(make_adapter, graph_states[ik],
-                           [(a, graph_states[k]) for a, k in full])
+        obs = [] if keep_obs else None
+        n, d = replay_path(make_adapter, exp[ik], [(a, exp[k]) for a, k in full], obs_out=obs)
         steps += n
         done += 1
         if d is not None:
             divs.append(d.to_json())
             if len(divs) >= 50:
                 break
-    return done, steps, divs
+        elif keep_obs:
+            kept.append(obs)
+    return done, steps, divs, kept
+
+
+_POOL = None
+
+
+def start_workers(procs=None):
+    """Start the replay worker processes.  Called once, early (while this process is
+    still small): forking from a process that holds a large state graph costs seconds
+    of page-table copying per child and a page copy per touched object."""
+    global _POOL
+    if _POOL is None:
+        procs = procs or min(16, os.cpu_count() or 1)
+        ctx = multiprocessing.get_context('fork')
+        _POOL = ctx.Pool(procs)
+    return _POOL
+
+
+def stop_workers():
+    global _POOL
+    if _POOL is not None:
+        _POOL.terminate()
+        _POOL.join()
+        _POOL = None
+
+
+def _remote(args):
+    make_adapter, chunk = args
+    _G['make'] = make_adapter
+    return _worker(chunk)
+
+
+def _fork_map(procs, args):
+    pool = start_workers()
+    make = _G['make']
+    return list(pool.imap_unordered(_remote, [(make, a) for a in args], chunksize=1))
+
+
+def _run_chunks(make_adapter, states, plans, procs, budget_s, keep_obs=False):
+    """states: list id -> projected TLC state.  Expected states are normalised and
+    canonicalised once in the parent and shipped with each chunk (touching inherited
+    Python objects in forked children costs a page copy per object)."""
+    procs = procs or min(16, os.cpu_count() or 1)
+    procs = max(1, min(procs, len(plans) or 1))
+    nch = procs if procs == 1 else max(procs, min(len(plans) // 40, procs * 16))
+    norm = getattr(make_adapter(), 'normalize', None)
+    cache = {}
+
+    def exp_of(n):
+        e = cache.get(n)
+        if e is None:
+            st = states[n]
+            e = cache[n] = canon(norm(st) if norm else st)
+        return e
+    args = []
+    for i in range(nch):
+        ch = plans[i::nch]
+        need = {}
+        for ik, full in ch:
+            need[ik] = exp_of(ik)
+            for _, k in full:
+                need[k] = exp_of(k)
+        args.append((ch, need, budget_s, keep_obs))
+    _G['make'] = make_adapter
+    if procs == 1:
+        return [_worker(a) for a in args]
+    return _fork_map(procs, args)
 
 
 def replay_graph(graph, make_adapter, *, rng=None, sample=None, budget_s=None,
@@ -173,17 +253,8 @@ def replay_graph(graph, make_adapter, *, rng=None, sample=None, budget_s=None,
 
     Returns dict(paths, steps, edges_covered, edges_total, divergences=[…], complete)."""
     plans, ncov = plan_targets(graph, rng=rng, sample=sample)
-    procs = procs or min(16, os.cpu_count() or 1)
-    procs = max(1, min(procs, len(plans)))
-    chunks = [plans[i::procs] for i in range(procs)]
     t0 = time.time()
-    _G['make'], _G['states'] = make_adapter, graph.state
-    if procs == 1:
-        results = [_worker((chunks[0], budget_s))]
-    else:
-        ctx = multiprocessing.get_context('fork')
-        with ctx.Pool(procs) as pool:
-            results = pool.map(_worker, [(c, budget_s) for c in chunks])
+    results = _run_chunks(make_adapter, graph.state, plans, procs, budget_s)
     done = sum(r[0] for r in results)
     steps = sum(r[1] for r in results)
     divs = [d for r in results for d in r[2]]
@@ -194,33 +265,24 @@ def replay_graph(graph, make_adapter, *, rng=None, sample=None, budget_s=None,
             'divergences': divs, 'wall_s': time.time() - t0}
 
 
-def replay_behaviours(behs, make_adapter, *, budget_s=None, procs=None):
+def replay_behaviours(behs, make_adapter, *, budget_s=None, procs=None, keep_obs=False):
     """behs: list of behaviours, each a list of edge dicts {from, act, to}."""
     plans = []
-    states = {}
+    states = []
     for b in behs:
         if not b:
             continue
-        ik = canon(b[0]['from'])
-        states[ik] = b[0]['from']
+        states.append(b[0]['from'])
+        ik = len(states) - 1
         full = []
         for e in b:
-            k = canon(e['to'])
-            states[k] = e['to']
-            full.append((e['act'], k))
+            states.append(e['to'])
+            full.append((e['act'], len(states) - 1))
         plans.append((ik, full))
-    procs = procs or min(16, os.cpu_count() or 1)
-    procs = max(1, min(procs, len(plans) or 1))
-    chunks = [plans[i::procs] for i in range(procs)]
     t0 = time.time()
-    _G['make'], _G['states'] = make_adapter, states
-    if procs == 1:
-        results = [_worker((chunks[0], budget_s))]
-    else:
-        ctx = multiprocessing.get_context('fork')
-        with ctx.Pool(procs) as pool:
-            results = pool.map(_worker, [(c, budget_s) for c in chunks])
+    results = _run_chunks(make_adapter, states, plans, procs, budget_s, keep_obs=keep_obs)
     return {'paths_planned': len(plans), 'paths': sum(r[0] for r in results),
             'steps': sum(r[1] for r in results),
             'divergences': [d for r in results for d in r[2]],
+            'observations': [o for r in results for o in r[3]],
             'wall_s': time.time() - t0}
